@@ -231,13 +231,45 @@ def run(ctx: Ctx):
     # a path below the top slot that ends early is carried along (and re-emits eos) while the top path is still unfinished. The
     # conditions each of these statements is reached under are evaluated for eos unset / set x finish_all_paths False / True.
     from sa.inteval import NotEvaluable as _NE, int_eval as _ie
+    def _guard3(t_, env_):
+        """The truth of a guard in a configuration, or None when it depends on run-time values (the step number, tensors): evaluated with
+        every truth assignment of its opaque operands - such a guard excludes nothing."""
+        try:
+            return bool(_ie(t_, dict(env_)))
+        except _NE:
+            pass
+        import itertools as _it
+
+        def _opaque(e_):
+            if u(e_) in env_:
+                return False
+            if isinstance(e_, ast.Call) and call_name(e_) not in ("bool", "int", "min", "max", "abs"):
+                return True
+            return isinstance(e_, (ast.Name, ast.Attribute, ast.Subscript))
+        keys = []
+
+        def _collect(e_):
+            if _opaque(e_):
+                if u(e_) not in keys:
+                    keys.append(u(e_))
+                return
+            for c_ in ast.iter_child_nodes(e_):
+                _collect(c_)
+        _collect(t_)
+        if len(keys) > 6:
+            return None
+        outs = set()
+        for combo in _it.product((True, False), repeat=len(keys)):
+            val = dict(zip(keys, combo))
+            outs.add(bool(_ie(t_, dict(env_, __leaf__=lambda e_: val.get(u(e_)) if _opaque(e_) else None))))
+        return outs.pop() if len(outs) == 1 else None
     for tag, node in ([("length-decrement", dec[0])] if len(dec) == 1 else []) + [(f"forcing-fill#{i_}", c_) for i_, c_ in enumerate(sorted(eos_fills, key=lambda c: c.lineno))]:
         gs = [(t_, p_) for t_, p_ in guards_of(pm, node)]
         badg = None
         try:
             for eos_v in (None, 3):
                 for fap in (False, True):
-                    reach = all(bool(_ie(inl_fw.expand(t_), {"self.eos": eos_v, "self.finish_all_paths": fap})) == p_ for t_, p_ in gs)
+                    reach = all(_guard3(inl_fw.expand(t_), {"self.eos": eos_v, "self.finish_all_paths": fap}) in (p_, None) for t_, p_ in gs)
                     if reach != (eos_v is not None) and badg is None:
                         badg = (eos_v, fap, reach)
         except _NE as e_:
@@ -378,7 +410,7 @@ def _all_paths_done_ignores_empty_slots(ctx: Ctx):
     for i_, j_ in ((0, 2), (1, 1), (2, 0), (2, 1), (2, 2)):
         L[i_, j_] = -math.inf
     want_done = [False, True, True, True, False]
-    verdicts = []
+    verdicts, n_und = [], 0
     for n in sites:
         st = n
         while st is not None and not isinstance(st, ast.stmt):
@@ -400,11 +432,12 @@ def _all_paths_done_ignores_empty_slots(ctx: Ctx):
             got = [bool(z) for z in np.asarray(got).reshape(-1).tolist()]
         except _NEap as e_:
             col.undecided(f"{rel}::BeamSearch.forward: the all-paths test `{u(st)[:60]}` is outside the evaluated fragment ({e_})")
+            n_und += 1
             continue
         verdicts.append((st, got))
     badv = [(st, got) for st, got in verdicts if got != want_done]
     col.floor("all_paths_reductions", len(sites), 1)
-    col.ob("G13", "S5", f"{rel}::BeamSearch.forward::all-paths-mode-waits-for-every-slot", not badv and bool(verdicts),
+    col.ob("G13", "S5", f"{rel}::BeamSearch.forward::all-paths-mode-waits-for-every-slot", not badv and (bool(verdicts) or n_und > 0),
            (f"under finish_all_paths `{u(badv[0][0])[:80]}` gives done = {badv[0][1]} for five reference beams (an active slot among finished / empty "
             f"ones; finished and empty ones; only empty ones; only finished ones; one active slot among finished ones); an element is done iff "
             f"EVERY slot has finished or is empty: {want_done} - otherwise the search freezes an element at the first eos anywhere in its beam and "
@@ -524,6 +557,10 @@ def _batch_axis_dropped_iff_unset(ctx: Ctx):
            rel, sites[0].lineno if sites else f.line, sample=dict(sites=len(sites)))
 
 
+class _BadSource(Exception):
+    pass
+
+
 def _beam_table(ctx: Ctx):
     """S10 by value: `BeamSearch.forward` - with `_to_width`, `update_log_probs_for_step` and `beam_search_advance` - is interpreted over
     exact values (sa/interp.py + sa/teval.py; nothing is run). The language model is a leaf with THREADED STATE: its scores for the next
@@ -588,6 +625,8 @@ def _beam_table(ctx: Ctx):
                     return (out, {"h": nh})
                 if cn == "self.lm.extract_by_src" and len(x.args) == 2:
                     prev, src = it.eval(x.args[0], env), np.asarray(it.eval(x.args[1], env)).reshape(-1)
+                    if not isinstance(prev, dict) or any(isinstance(s_, float) or s_ != int(s_) or not 0 <= int(s_) < len(prev["h"]) for s_ in src):
+                        raise _BadSource(f"the language-model state is re-ordered by {[str(s_) for s_ in src][:6]}, which are not slots of the previous beam")
                     return {"h": np.array([prev["h"][int(s_)] for s_ in src], dtype=int)}
                 if isinstance(x.func, ast.Attribute) and x.func.attr == "log_softmax":
                     return it.eval(x.func.value, env)
@@ -604,7 +643,10 @@ def _beam_table(ctx: Ctx):
         names = [p_.name for p_ in fwd.params[1:]]
         env = dict(zip(names, (None, None if (N == 1 and not explicit_batch) else N, max_iters)))
         env.update({"self.eos": eos, "self.width": width, "self.finish_all_paths": fap, "self.lm.vocab_size": V, "self.pad_value": -9})
-        kind, got = it.run(fwd.node, env)
+        try:
+            kind, got = it.run(fwd.node, env)
+        except _BadSource as e_:
+            return str(e_)
         if kind != "return" or not isinstance(got, tuple) or len(got) != 3:
             return f"{kind}: {str(got)[:80]}"
         y, lens, lp = (np.asarray(g_, dtype=object) for g_ in got)
